@@ -362,6 +362,7 @@ func c19Child(specJSON string) {
 			c19Range(m, sp, rng, out)
 		case "first":
 			c19First(m, sp, r, out)
+			c19DeleteTogether(m, sp, r, out)
 		}
 	}
 	js, _ := json.Marshal(out)
@@ -401,6 +402,54 @@ func c19First(m c19Map, sp c19Spec, round int, out *c19ChildOut) {
 	if n := m.Len(); n != G {
 		out.Fails = append(out.Fails, c19Fail{What: fmt.Sprintf("%s: after %d completed Stores of distinct keys on a fresh storage Len() = %d (round %d)", c19Name(sp.Kind, sp.Req), G, n, round),
 			Sig: "conc-first-store-lost", Replay: map[string]any{"spec": sp, "round": round}})
+	}
+}
+
+// several goroutines delete the SAME present key at the same moment (and one stores another key): once everything has
+// returned, Len and Range must agree with the keys that are left - every linearization has exactly one effective Delete
+func c19DeleteTogether(m c19Map, sp c19Spec, round int, out *c19ChildOut) {
+	G := 2 + round%3
+	base := 3 + round%2
+	for i := 0; i < base; i++ {
+		m.Store(fmt.Sprintf("dt-%d", i), i)
+	}
+	before := m.Len()
+	var ready, wg sync.WaitGroup
+	var goFlag int32
+	ready.Add(G + 1)
+	wg.Add(G + 1)
+	for g := 0; g < G; g++ {
+		go func() {
+			defer wg.Done()
+			ready.Done()
+			for atomic.LoadInt32(&goFlag) == 0 {
+			}
+			m.Delete("dt-0")
+		}()
+	}
+	go func() {
+		defer wg.Done()
+		ready.Done()
+		for atomic.LoadInt32(&goFlag) == 0 {
+		}
+		m.Store("dt-new", 99)
+	}()
+	ready.Wait()
+	atomic.StoreInt32(&goFlag, 1)
+	wg.Wait()
+	out.Stats["delete-together:rounds"]++
+	want := before // one key removed, one key added
+	seen := 0
+	m.Range(func(k string, v int) bool { seen++; return true })
+	if n := m.Len(); n != want || seen != want {
+		out.Fails = append(out.Fails, c19Fail{
+			What: fmt.Sprintf("%s: %d goroutines deleted the same present key together while one stored a new key; afterwards (quiescent) Len() = %d and Range visits %d entries, %d keys are present (round %d)",
+				c19Name(sp.Kind, sp.Req), G, n, seen, want, round),
+			Sig: "conc-delete-together", Replay: map[string]any{"spec": sp, "round": round, "goroutines": G}})
+	}
+	m.Delete("dt-new")
+	for i := 1; i < base; i++ {
+		m.Delete(fmt.Sprintf("dt-%d", i))
 	}
 }
 
